@@ -1,6 +1,7 @@
 import Hifi.Model.Proto
 import Hifi.Model.Epoch
 import Hifi.Model.Views
+import Hifi.Model.LeapFile
 import Hifi.Spec.Epoch
 import Hifi.Drive.Duration
 /-
@@ -377,9 +378,13 @@ def handleOps (op : String) (args : List String) (impl : Impl) : Option Ans :=
   | "lsfile_lookup", [h, e] => do
     let e ← parseEp? e
     let txt := hexToAscii h
-    let m := match parseLsFile txt with
-      | none => "err"
-      | some tbl => "ok " ++ showLeapEntries tbl ++ " " ++
+    let codes : List Nat := txt.toList.map Char.toNat
+    let m := match Hifi.LeapFile.parseFile codes with
+      | .err => "err"
+      | .panic => "panic"
+      | .ok pairs =>
+        let tbl : List LeapEntry := pairs.map (fun p => ((p.1 : Int), (p.2 : Int) * 1000000000, true, f64BitsOfNat p.2))
+        "ok " ++ showLeapEntries tbl ++ " " ++
           (match leapSecondsWith tbl e true with
            | some (some x) => x.bits | some none => "none" | none => "unmodelled")
     -- spec: the provider holds exactly the data lines of the file, and answers with the step function of the file
